@@ -1,5 +1,6 @@
 mod ctl;
 mod engines;
+mod blobfile;
 mod evidence;
 mod model;
 mod oracle;
